@@ -192,4 +192,7 @@ def run(ctx, led):
              "1..num_domains", b1, ctx)
     run_rule(led, "B2", "the clause is stored on the Satisfiable arm and added before the next solve "
              "on every path (MUST-PASS both)", b2, ctx)
+    from . import shared, C07
+    run_rule(led, "B4", "kernel hygiene the blocking clauses rely on: no element skipped after swap_remove, no nogood id recycled while it is a reason (shared with C07-J1)", shared.swap_remove_skip, ctx)
+    run_rule(led, "B5", "a nogood is deleted only if it is not the reason of a trail entry (shared with C07-J1)", C07.j1, ctx)
     run_rule(led, "B3", "result TABLE of next_solution", b3, ctx)
